@@ -54,6 +54,14 @@ func c05forms() []c05form {
 		{"[null,long,string]", `["null","long","string"]`, []any{u(0, nil), u(1, int64(7)), u(2, "str")}},
 		{"[null,string]", `["null","string"]`, []any{u(0, nil), u(1, "str"), u(1, "")}},
 	}
+	// the same base types carrying logical types (the annotation does not change what fits the destination)
+	forms = append(forms,
+		c05form{"long/timestamp-micros", `{"type":"long","logicalType":"timestamp-micros"}`, longs},
+		c05form{"long/timestamp-millis", `{"type":"long","logicalType":"timestamp-millis"}`, longs},
+		c05form{"int/date", `{"type":"int","logicalType":"date"}`, ints},
+		c05form{"long/unknown-logical", `{"type":"long","logicalType":"x-vendor"}`, longs},
+		c05form{"[null,long/timestamp-micros]", `["null",{"type":"long","logicalType":"timestamp-micros"}]`, []any{u(0, nil), u(1, int64(7)), u(1, int64(1)<<40)}},
+	)
 	for _, n := range []int{0, 1, 4, 16, 17} {
 		forms = append(forms, c05form{fmt.Sprintf("fixed%d", n), fmt.Sprintf(`{"type":"fixed","name":"fx%d","size":%d}`, n, n), fx(n)})
 	}
@@ -510,7 +518,7 @@ func init() {
 		ID:        "C05",
 		Level:     "exploration",
 		Technique: "runtime monitoring: complete schema-form x Go-kind x position matrix decoded into a canary struct (byte-adjacent guard fields and padding filled with a pattern, verified after every decode), repeated under checkptr and ASan builds in child processes; deep read of the decoded field",
-		Rule: "every cell of {22 schema forms} x {48 Go kinds} x {direct, behind pointer, slice element, map value}, each built codec driven with in-range, boundary and out-of-range datums; plus random compatible (schema, target) pairs with one leaf kind replaced; plus self-containing Go types (tree, list, bag of bags, map of pointers to itself) under finite schemas nested 1-4 levels, decoded from reference-encoded records and compared level by level; a further position with a second direct field of the same schema name and type; every built decoder is also run a second time into the destination it has just used; " +
+		Rule: "every cell of {27 schema forms} x {48 Go kinds} x {direct, behind pointer, slice element, map value}, each built codec driven with in-range, boundary and out-of-range datums; plus random compatible (schema, target) pairs with one leaf kind replaced; plus self-containing Go types (tree, list, bag of bags, map of pointers to itself) under finite schemas nested 1-4 levels, decoded from reference-encoded records and compared level by level; a further position with a second direct field of the same schema name and type; every built decoder is also run a second time into the destination it has just used; " +
 			"distinct_nontrivial = distinct cells for which a decoder was built and run",
 		Explanation: "A build error is an accepted outcome. For a built decoder: every byte of the destination struct outside field F (align-1 guard arrays directly adjacent to F, padding, a sibling field not in the schema) must keep its pattern; the field must hold a valid value of its type (bool byte 0/1, slices/maps/strings/pointers fully readable); where the model covers the pairing the value must equal the expected conversion and out-of-range datums must be errors. checkptr sees conversions that straddle allocations, ASan sees stores past library-allocated memory (slice backing arrays, bank arenas, map value temporaries).",
 		Assumptions: []string{"ASan does not see intra-object overflow (that is what the canary bytes are for); checkptr does not see a store that stays inside one allocation"},
